@@ -499,4 +499,98 @@ Section LcProofs.
     intros A E. rewrite <- (lsum_from_iter h a A), <- (lsum_from_iter h b A).
     apply lsum_coeff_ext; try apply NoZero_from_iter. intros x. now rewrite !coeff_from_iter.
   Qed.
+
+  (* ---------- which keys can occur ---------- *)
+  Lemma lsum_ext_in h h' l : (forall e, In e l -> h (fst e) (snd e) = h' (fst e) (snd e)) -> lsum h l = lsum h' l.
+  Proof.
+    intros E. induction l as [|e l IH]; [reflexivity|]. rewrite !lsum_cons, IH, E; [reflexivity|now left|].
+    intros e' I. apply E. now right.
+  Qed.
+
+  Lemma lsum_ext_keys h h' l : (forall x r, In x (keys l) -> h x r = h' x r) -> lsum h l = lsum h' l.
+  Proof.
+    intros E. apply lsum_ext_in. intros e I. apply E. unfold Lc.keys. apply in_map_iff. now exists e.
+  Qed.
+
+  Lemma keys_add_pair_incl l e x : In x (keys (add_pair l e)) -> In x (keys l) \/ x = fst e.
+  Proof.
+    unfold Lc.add_pair. destruct (ris_zero o (snd e)); [now left|]. rewrite keys_upd_add.
+    destruct (existsb (fun y => xeqb y (fst e)) (keys l)); [now left|]. intros I. apply in_app_or in I as [I|[<-|[]]]; auto.
+  Qed.
+
+  Lemma keys_fold_gen_incl {T} (F : T -> X * R) (it : list T) l x :
+    In x (keys (fold_left (fun acc t => add_pair acc (F t)) it l)) -> In x (keys l) \/ In x (map (fun t => fst (F t)) it).
+  Proof.
+    revert l. induction it as [|t it IH]; intros l; cbn [fold_left map]; [now left|]. intros I.
+    apply IH in I as [I|I]; [|right; now right]. apply keys_add_pair_incl in I as [I| ->]; [now left|right; now left].
+  Qed.
+
+  Definition KeysOk (P : X -> Prop) (l : lc) : Prop := Forall P (keys l).
+
+  Lemma KeysOk_clean P l : KeysOk P l -> KeysOk P (clean l).
+  Proof. unfold KeysOk. rewrite !Forall_forall. intros H x I. apply H. now apply keys_clean_incl. Qed.
+
+  Lemma KeysOk_fold_gen {T} P (F : T -> X * R) (it : list T) l :
+    KeysOk P l -> Forall (fun t => P (fst (F t))) it -> KeysOk P (fold_left (fun acc t => add_pair acc (F t)) it l).
+  Proof.
+    unfold KeysOk. rewrite !Forall_forall. intros Hl Hit x I. apply keys_fold_gen_incl in I as [I|I]; [now apply Hl|].
+    apply in_map_iff in I as [t [<- I]]. now apply Hit.
+  Qed.
+
+  Lemma KeysOk_nil P : KeysOk P [].
+  Proof. constructor. Qed.
+
+  Theorem KeysOk_from_iter P it : Forall P (map fst it) -> KeysOk P (from_iter it).
+  Proof.
+    intros H. apply KeysOk_clean. apply (KeysOk_fold_gen P (fun e => e)); [apply KeysOk_nil|].
+    rewrite Forall_map in H. exact H.
+  Qed.
+  Theorem KeysOk_add P a b : KeysOk P a -> KeysOk P b -> KeysOk P (add xeqb o a b).
+  Proof.
+    intros Ha Hb. apply KeysOk_clean. apply (KeysOk_fold_gen P (fun e => e)); [assumption|].
+    unfold KeysOk, Lc.keys in Hb. rewrite Forall_map in Hb. exact Hb.
+  Qed.
+  Theorem KeysOk_sub P a b : KeysOk P a -> KeysOk P b -> KeysOk P (sub xeqb o a b).
+  Proof.
+    intros Ha Hb. apply KeysOk_clean. apply (KeysOk_fold_gen P (fun e => (fst e, - snd e))); [assumption|].
+    unfold KeysOk, Lc.keys in Hb. rewrite Forall_map in Hb. exact Hb.
+  Qed.
+  Theorem KeysOk_neg P a : KeysOk P a -> KeysOk P (neg xeqb o a).
+  Proof.
+    intros Ha. apply KeysOk_from_iter. rewrite map_map. cbn [fst]. exact Ha.
+  Qed.
+  Theorem KeysOk_smul P a c : KeysOk P a -> KeysOk P (smul o a c).
+  Proof.
+    intros Ha. unfold smul. destruct (ris_one o c); [assumption|]. apply KeysOk_clean.
+    unfold KeysOk. rewrite (keys_map_snd (fun _ r => r * c)). exact Ha.
+  Qed.
+  Theorem KeysOk_combine (P : X -> Prop) f a b : (forall x y, P x -> P y -> P (f x y)) -> KeysOk P a -> KeysOk P b ->
+    KeysOk P (lc_combine xeqb o f a b).
+  Proof.
+    intros Hf Ha Hb. apply KeysOk_clean.
+    assert (G : forall l, KeysOk P l -> KeysOk P (fold_left (fun acc e1 =>
+                 fold_left (fun acc2 e2 => add_pair acc2 (f (fst e1) (fst e2), snd e1 * snd e2)) b acc) a l)).
+    { unfold KeysOk, Lc.keys in Ha. rewrite Forall_map in Ha.
+      induction a as [|e1 a IH]; intros l Hl; cbn [fold_left]; [assumption|]. inversion Ha; subst. apply IH; [assumption|].
+      apply (KeysOk_fold_gen P (fun e2 => (f (fst e1) (fst e2), snd e1 * snd e2))); [assumption|].
+      unfold KeysOk, Lc.keys in Hb. rewrite Forall_map in Hb. cbn [fst]. revert Hb. apply Forall_impl. intros e2. now apply Hf. }
+    apply G, KeysOk_nil.
+  Qed.
+  Theorem KeysOk_filter_gens P p a : KeysOk P a -> KeysOk P (filter_gens xeqb o p a).
+  Proof.
+    intros Ha. apply KeysOk_from_iter. unfold KeysOk, Lc.keys in Ha. rewrite Forall_map in *.
+    rewrite Forall_forall in *. intros e I. apply filter_In in I as [I _]. now apply Ha.
+  Qed.
+  Theorem KeysOk_map_gens (P : X -> Prop) f a : (forall x, P x -> P (f x)) -> KeysOk P a -> KeysOk P (map_gens xeqb o f a).
+  Proof.
+    intros Hf Ha. apply KeysOk_from_iter. rewrite map_map. cbn [fst]. unfold KeysOk, Lc.keys in Ha.
+    rewrite Forall_map in *. revert Ha. apply Forall_impl. intros e. apply Hf.
+  Qed.
+  Theorem KeysOk_apply (P : X -> Prop) f a : (forall x, P x -> KeysOk P (f x)) -> KeysOk P a -> KeysOk P (apply xeqb o f a).
+  Proof.
+    intros Hf Ha. apply KeysOk_from_iter. rewrite Forall_forall. intros x I. apply in_map_iff in I as [e' [<- I]].
+    apply in_flat_map in I as [e [Ie I]]. apply in_map_iff in I as [e2 [<- I2]]. cbn [fst].
+    unfold KeysOk, Lc.keys in Ha. rewrite Forall_map, Forall_forall in Ha. specialize (Hf _ (Ha _ Ie)).
+    unfold KeysOk, Lc.keys in Hf. rewrite Forall_map, Forall_forall in Hf. now apply Hf.
+  Qed.
 End LcProofs.
